@@ -41,6 +41,8 @@ struct Endpoint {
     wr: Arc<Pipe>,
     /// SO_RCVTIMEO: an option of the socket, shared by its clones
     rd_timeout: StdMutex<Option<std::time::Duration>>,
+    /// O_NONBLOCK: a read / peek that would wait fails with `WouldBlock` at once
+    nonblocking: std::sync::atomic::AtomicBool,
 }
 
 impl Drop for Endpoint {
@@ -83,8 +85,8 @@ impl TcpStream {
         let s2c = Pipe::new();
         let cport = 40000 + (fresh_id() % 20000) as u16;
         let caddr = SocketAddr::new(IpAddr::V4(Ipv4Addr::LOCALHOST), cport);
-        let server = TcpStream { ep: Arc::new(Endpoint { rd: c2s.clone(), wr: s2c.clone(), rd_timeout: StdMutex::new(None) }), local: addr, peer: caddr, peer_gone: false };
-        let client = TcpStream { ep: Arc::new(Endpoint { rd: s2c, wr: c2s, rd_timeout: StdMutex::new(None) }), local: caddr, peer: addr, peer_gone: false };
+        let server = TcpStream { ep: Arc::new(Endpoint { rd: c2s.clone(), wr: s2c.clone(), rd_timeout: StdMutex::new(None), nonblocking: std::sync::atomic::AtomicBool::new(false) }), local: addr, peer: caddr, peer_gone: false };
+        let client = TcpStream { ep: Arc::new(Endpoint { rd: s2c, wr: c2s, rd_timeout: StdMutex::new(None), nonblocking: std::sync::atomic::AtomicBool::new(false) }), local: caddr, peer: addr, peer_gone: false };
         {
             let mut q = l.st.lock().unwrap();
             if q.closed {
@@ -134,7 +136,7 @@ impl TcpStream {
         }
         s2c.st.lock().unwrap().reset = true;
         let caddr = SocketAddr::new(IpAddr::V4(Ipv4Addr::LOCALHOST), 39999);
-        let server = TcpStream { ep: Arc::new(Endpoint { rd: c2s, wr: s2c, rd_timeout: StdMutex::new(None) }), local: addr, peer: caddr, peer_gone: true };
+        let server = TcpStream { ep: Arc::new(Endpoint { rd: c2s, wr: s2c, rd_timeout: StdMutex::new(None), nonblocking: std::sync::atomic::AtomicBool::new(false) }), local: addr, peer: caddr, peer_gone: true };
         {
             let mut q = l.st.lock().unwrap();
             if q.closed {
@@ -166,6 +168,15 @@ impl TcpStream {
     }
     pub fn set_write_timeout(&self, _: Option<std::time::Duration>) -> io::Result<()> {
         Ok(())
+    }
+    pub fn set_nonblocking(&self, on: bool) -> io::Result<()> {
+        self.ep.nonblocking.store(on, std::sync::atomic::Ordering::SeqCst);
+        Ok(())
+    }
+    /// as `read`, without consuming: what is returned stays readable (at most the first queued
+    /// segment is shown, which a real socket may do as well)
+    pub fn peek(&self, buf: &mut [u8]) -> io::Result<usize> {
+        self.read_impl(buf, false)
     }
 
     pub fn shutdown(&self, how: Shutdown) -> io::Result<()> {
@@ -225,6 +236,12 @@ impl Read for TcpStream {
 
 impl Read for &TcpStream {
     fn read(&mut self, buf: &mut [u8]) -> io::Result<usize> {
+        self.read_impl(buf, true)
+    }
+}
+
+impl TcpStream {
+    fn read_impl(&self, buf: &mut [u8], consume: bool) -> io::Result<usize> {
         let (rt, me) = current();
         rt.yield_point(me);
         let mut waited_until: Option<u64> = None;
@@ -240,6 +257,9 @@ impl Read for &TcpStream {
                 if let Some(seg) = st.segments.front_mut() {
                     let n = std::cmp::min(buf.len(), seg.len());
                     buf[..n].copy_from_slice(&seg[..n]);
+                    if !consume {
+                        return Ok(n);
+                    }
                     if n == seg.len() {
                         st.segments.pop_front();
                     } else {
@@ -254,7 +274,10 @@ impl Read for &TcpStream {
                     return Ok(0);
                 }
             }
-            let deadline = self.ep.rd_timeout.lock().unwrap().map(|d| rt.now() + d.as_nanos() as u64);
+            if self.ep.nonblocking.load(std::sync::atomic::Ordering::SeqCst) {
+                return Err(io::Error::new(ErrorKind::WouldBlock, "resource temporarily unavailable"));
+            }
+            let deadline = self.ep.rd_timeout.lock().unwrap().map(|d| rt.now().saturating_add(crate::sched::nanos_sat(d)));
             if let Some(d) = deadline {
                 if let Some(dl) = waited_until {
                     if rt.now() >= dl {
